@@ -417,7 +417,7 @@ fn lit_ve(m: i64, comm: Option<usize>) -> VE {
 }
 
 fn two(p: Posting) -> Vec<Entry> {
-    vec![Entry::Txn(Txn { date: 0, posts: vec![p, Posting { account: 1, amount: None, cost: None, lot: None, balance: None }] })]
+    vec![Entry::Txn(Txn { effective: None, date: 0, posts: vec![p, Posting { account: 1, amount: None, cost: None, lot: None, balance: None }] })]
 }
 
 fn position_ledgers(t: &VE) -> Vec<(&'static str, Vec<Entry>)> {
